@@ -86,6 +86,7 @@ type stepT struct {
 }
 
 type behT struct {
+	Mode  string   `json:"mode"`
 	Trace []stepT  `json:"trace"`
 	Final []queryT `json:"final"`
 }
@@ -249,16 +250,16 @@ type outcome struct {
 }
 
 type player struct {
-	r    *ev.Run
-	fam  *family
-	e    *env
-	u    userEnv
-	beh  *behT
-	c    [3]*wire.Client // sessions 1 and 2
-	rid  map[string]imap.MailboxID
-	nID  int
-	skip map[string]bool // query shapes that crashed this family's server before (shared per family)
-	mu   *sync.Mutex
+	r        *ev.Run
+	fam      *family
+	e        *env
+	u        userEnv
+	beh      *behT
+	c        [3]*wire.Client // sessions 1 and 2
+	rid      map[string]imap.MailboxID
+	nID      int
+	skip     map[string]bool // query shapes that crashed this family's server before (shared per family)
+	mu       *sync.Mutex
 	diverged bool
 }
 
@@ -302,13 +303,13 @@ func cmdText(s *stepT) string {
 	return s.Act
 }
 
-func argQual(s *stepT) string {
+func argQual(s *stepT, withInbox bool) string {
 	var q []string
 	for _, a := range s.Args {
 		if a.F != "plain" {
 			q = append(q, a.F)
 		}
-		if a.I {
+		if a.I && withInbox {
 			q = append(q, "inbox")
 		}
 		if a.Rec {
@@ -319,7 +320,7 @@ func argQual(s *stepT) string {
 		q = append(q, "recovery")
 	}
 	for _, c := range s.Conn.Comps {
-		if strings.EqualFold(text(c), "inbox") {
+		if strings.EqualFold(text(c), "inbox") && withInbox {
 			q = append(q, "inbox")
 			break
 		}
@@ -327,7 +328,14 @@ func argQual(s *stepT) string {
 	if len(q) == 0 {
 		return ""
 	}
-	sort.Strings(q)
+	// forms first, so that a known finding can be named by a key prefix
+	rank := map[string]int{"dbl": 0, "lead": 0, "trail": 0, "recovery": 1, "inbox": 2}
+	sort.Slice(q, func(i, j int) bool {
+		if rank[q[i]] != rank[q[j]] {
+			return rank[q[i]] < rank[q[j]]
+		}
+		return q[i] < q[j]
+	})
 	var u []string
 	for _, x := range q {
 		if len(u) == 0 || u[len(u)-1] != x {
@@ -410,7 +418,7 @@ func fmtEntries(m map[string]bool) string {
 	return "{" + strings.Join(ks, " ") + "}"
 }
 
-// compareListing returns the kinds of difference ("" = none) with a description.
+// compareListing returns the kind of difference (nil = none; one kind, the most basic one) with a description.
 func compareListing(exp []entryT, got listing) ([]string, string) {
 	want := map[string]bool{}
 	for _, e := range exp {
@@ -428,30 +436,29 @@ func compareListing(exp []entryT, got listing) ([]string, string) {
 	for n, ns := range want {
 		g, ok := got.ent[n]
 		if !ok {
-			add("names-missing")
+			add("1names-differ")
 		} else if g != ns {
-			if ns {
-				add("noselect-missing")
-			} else {
-				add("noselect-unexpected")
-			}
+			add("2noselect-differs")
 		}
 	}
 	for n := range got.ent {
 		if _, ok := want[n]; !ok {
-			add("names-extra")
+			add("1names-differ")
 		}
 	}
 	if len(got.dup) > 0 {
-		add("duplicate-lines")
+		add("3duplicate-lines")
 	}
 	if len(got.delim) > 0 {
-		add("delimiter-wrong")
+		add("4delimiter-wrong")
 	}
 	if len(got.junk) > 0 {
-		add("unparsable-line")
+		add("5unparsable-line")
 	}
 	sort.Strings(kinds)
+	if len(kinds) > 0 {
+		kinds = []string{kinds[0][1:]}
+	}
 	return kinds, fmt.Sprintf("server answered %s, the specification expects %s", fmtEntries(got.ent), fmtEntries(want))
 }
 
@@ -476,6 +483,15 @@ func queryShape(q *queryT) string {
 	return s
 }
 
+func containsAll(shape, wild string) bool {
+	for _, c := range wild {
+		if !strings.ContainsRune(shape, c) {
+			return false
+		}
+	}
+	return true
+}
+
 func queryCmd(q *queryT) string {
 	k := "LIST"
 	if q.Lsub {
@@ -492,7 +508,14 @@ func (p *player) doQuery(q *queryT, sess int, upto int, out *outcome) bool {
 	}
 	shape := queryShape(q)
 	p.mu.Lock()
-	sk := p.skip[kind+shape]
+	sk := false
+	for crashed := range p.skip {
+		// a query of this kind whose pattern had these wildcards killed the server of this family before:
+		// asking again only costs a server (the crash is reported once; this is sampling, not a verdict)
+		if strings.HasPrefix(crashed, kind) && containsAll(shape, crashed[len(kind):]) {
+			sk = true
+		}
+	}
 	p.mu.Unlock()
 	if sk {
 		p.r.Add("queries_skipped_after_crash_of_same_shape", 1)
@@ -660,6 +683,16 @@ func (p *player) connStep(s *stepT) (string, string) {
 	if err != nil {
 		st = "err"
 	}
+	if st == "ok" && !s.Conn.Rec {
+		// the harness connector only records what gluon asks of it: keep its table of remote mailboxes
+		// in step with what the "remote" itself just announced
+		switch s.Act {
+		case "MailboxUpdated":
+			p.u.conn.Mailboxes[id] = comps
+		case "MailboxDeleted":
+			delete(p.u.conn.Mailboxes, id)
+		}
+	}
 	if st == "ok" && s.Status == "ok" && s.Act == "MailboxCreated" {
 		if m := p.bind(s, id); m != "" {
 			return st, m
@@ -739,9 +772,9 @@ func (p *player) run() outcome {
 			got = res.Status
 		}
 		out.steps++
-		p.r.Eval(p.fam.Name+"|"+cmdText(s)+"|"+fmtExp(s.List)+"|"+fmtExp(s.Lsub), s.Status == "OK" || s.Status == "ok" || argQual(s) != "")
+		p.r.Eval(p.fam.Name+"|"+cmdText(s)+"|"+fmtExp(s.List)+"|"+fmtExp(s.Lsub), s.Status == "OK" || s.Status == "ok" || argQual(s, true) != "")
 		if got != s.Status {
-			p.violate(s.Act, "status-"+got+"-expected-"+s.Status+argQual(s), i,
+			p.violate(s.Act, "status-"+got+"-expected-"+s.Status+argQual(s, true), i,
 				fmt.Sprintf("%s answered %s %s; the specification expects %s", cmdText(s), got, res.Text, s.Status), nil)
 			out.abandoned = true
 			return out
@@ -777,20 +810,27 @@ func (p *player) run() outcome {
 			}
 			kinds, desc := compareListing(lk.exp, p.parseListing(r2, lk.kind))
 			for _, k := range kinds {
-				p.violate(s.Act, "after-"+lk.kind+"-"+k+argQual(s), i, fmt.Sprintf("after the last command below, %s \"\" \"*\": %s", lk.kind, desc), nil)
+				p.violate(s.Act, "after-"+lk.kind+"-"+k+argQual(s, false), i, fmt.Sprintf("after the last command below, %s \"\" \"*\": %s", lk.kind, desc), nil)
 				stateOff = true
+			}
+			if stateOff {
+				break
 			}
 		}
 		// where the test message is
+		if stateOff {
+			out.abandoned = true
+			return out
+		}
 		if len(s.Holder) > 0 {
 			if n, alive := p.messages(sess, s.Holder); alive && n != 1 {
-				p.violate(s.Act, "messages-misplaced"+argQual(s), i, fmt.Sprintf("STATUS %s (MESSAGES) = %d, the specification expects the test message there", wireName(s.Holder), n), nil)
+				p.violate(s.Act, "messages-misplaced"+argQual(s, false), i, fmt.Sprintf("STATUS %s (MESSAGES) = %d, the specification expects the test message there", wireName(s.Holder), n), nil)
 				stateOff = true
 			}
 		}
 		if text(s.Holder) != "INBOX" {
 			if n, alive := p.messages(sess, chars{"INBOX"}); alive && n != 0 {
-				p.violate(s.Act, "messages-left-in-INBOX"+argQual(s), i, fmt.Sprintf("STATUS INBOX (MESSAGES) = %d, the specification expects 0", n), nil)
+				p.violate(s.Act, "messages-left-in-INBOX"+argQual(s, false), i, fmt.Sprintf("STATUS INBOX (MESSAGES) = %d, the specification expects 0", n), nil)
 				stateOff = true
 			}
 		}
@@ -814,6 +854,8 @@ func (p *player) run() outcome {
 }
 
 // ---- TLC runs ---------------------------------------------------------------------------
+
+var reSimStates = regexp.MustCompile(`The number of states generated: (\d+)`)
 
 func specDir() string { return filepath.Join(ev.Root(), "spec") }
 
@@ -996,7 +1038,15 @@ func run(r *ev.Run, tier, replay string) {
 				return
 			}
 			r.Add("behaviours_generated", int64(len(behs)))
-			r.Add("simulation_states_generated", res.Generated)
+			if m := reSimStates.FindStringSubmatch(res.Output); m != nil {
+				n, _ := strconv.ParseInt(m[1], 10, 64)
+				r.Add("simulation_states_generated", n)
+			}
+			for _, b := range behs {
+				if b.Mode == "steered" {
+					r.Add("behaviours_steered_around_known_divergences", 1)
+				}
+			}
 			replayFamily(r, f, behs, 1)
 		}(i)
 	}
